@@ -12,9 +12,9 @@ Record dir_case := mk_dir_case {
 }.
 
 Definition to_links (c : dir_case) : list plink :=
-  map (fun p => PLink (fst p) None (Ext (snd p))) (dc_links c).
+  map (fun p => PLink (fst p) None (Ext (snd p) 36)) (dc_links c).
 
-Definition tid (b : blk) : N := match b with Ext i => i | _ => 0 end.
+Definition tid (b : blk) : N := match b with Ext i _ => i | _ => 0 end.
 
 Definition pair_eqb (a b : bytes * N) := bytes_eqb (fst a) (fst b) && N.eqb (snd a) (snd b).
 
